@@ -23,6 +23,16 @@ CHECKS = {
             'For each catalogue recursive program and every graph with <=K edges z3 proves result == T^(depth+1)(empty) (self recursion, flat and iterative unfolding, depths 1,2,3,8,21,22,24) or, for vertical unfolding of a cut cycle, T^(depth+1)(empty) <= result <= lfp.',
             'Trusted: lv/sqlsem.py, lv/refsem.py, z3. Upper containment bound checked against T^(cycle*(depth+1)) and confirmed against a concretely computed least fixpoint on replay. Outside: diamond mode, stop signals inside compiled recursion, depth infinity.',
             'DESIGN.md §2.1, §3 C03', 'sqlsmt'),
+    'C07': ('translation_validation',
+            'metamorphic: original and permuted/renamed program both compiled by the real compiler, equivalence of the two emitted SQL texts decided by z3 over a bounded symbolic database; sat models replayed on real SQLite',
+            'For each catalogue program (core, agg, rec) and a seeded permutation of rules/conjuncts/disjuncts or renaming of variables/predicates, z3 proves both emitted SQL texts return the same multiset on every database with <=K rows per table.',
+            'Trusted: lv/sqlsem.py, z3. Part (b) of the design (order independence of the Python aggregate UDFs) is decided in C20.',
+            'DESIGN.md §3 C07', 'sqlsmt'),
+    'C11': ('translation_validation',
+            'metamorphic: short and long form of each documented shorthand (AST rewrite at every site) compiled by the real compiler, equivalence of the emitted SQL decided by z3 over a bounded symbolic database; sat models replayed on real SQLite',
+            'For each catalogue program (core, agg, sugarbase) and each applicable documented equivalence, z3 proves short form == long form on every database with <=K rows per table; a long form rejected by the compiler is a violation.',
+            'Trusted: lv/sqlsem.py, z3. Known finding KF-C11-eq-after-expression.',
+            'DESIGN.md §3 C11', 'sqlsmt'),
 }
 
 NOT_APPLICABLE = {
